@@ -63,6 +63,10 @@ func newSim(t *testing.T, spec *RunSpec) *Sim {
 	for i := range spec.Faults {
 		f := &spec.Faults[i]
 		s.faultsAt[f.Site] = f
+		if f.Kind == "crash" {
+			s.crashAt = f
+			fmt.Sscanf(f.Site, "step|%d", &s.crashStep)
+		}
 	}
 	s.chooser = newChooser(spec.Sched)
 	return s
